@@ -288,15 +288,34 @@ def m_lat_trust_nonmono_main(draw, kw):
 
 
 def m_lat_main_and_cond(draw, kw):
-  d = _lat_grow(kw)
-  a = draw(st.integers(0, d - 1))
-  b = draw(st.integers(0, d - 2))
-  b = b if b < a else b + 1
+  """A feature that is the main feature of one trust and the conditional
+  feature of another: the direct reversal (a,b),(b,a) or a chain through a
+  third feature (a,b),(b,c), listed in either order and possibly split between
+  the Edgeworth and the trapezoid list."""
+  chain = draw(st.booleans())
+  d = _lat_grow(kw, 3 if chain else 2)
+  dims = draw(st.permutations(list(range(d))))
+  a, b = dims[0], dims[1]
+  kw["monotonicities"] = list(kw["monotonicities"])
   kw["monotonicities"][a] = kw["monotonicities"][b] = 1
   kw["unimodalities"] = None
   kw["joint_unimodalities"] = None
-  kw["edgeworth_trusts"] = [T(a, b, 1), T(b, a, 1)]
-  kw["trapezoid_trusts"] = None
+  if chain:
+    c = dims[2]
+    kw["monotonicities"][c] = draw(st.sampled_from([0, 1]))
+    pair = [T(a, b, draw(st.sampled_from([1, -1]))),
+            T(b, c, draw(st.sampled_from([1, -1])))]
+  else:
+    pair = [T(a, b, 1), T(b, a, 1)]
+  if draw(st.booleans()):
+    pair = pair[::-1]
+  where = draw(st.sampled_from(["ew", "ew", "tz", "split"]))
+  if where == "ew":
+    kw["edgeworth_trusts"], kw["trapezoid_trusts"] = pair, None
+  elif where == "tz":
+    kw["edgeworth_trusts"], kw["trapezoid_trusts"] = None, pair
+  else:
+    kw["edgeworth_trusts"], kw["trapezoid_trusts"] = [pair[0]], [pair[1]]
   return kw
 
 
